@@ -85,3 +85,11 @@ CLAIMS["C07"] = (
     "every node class; inverted classes exclude end-of-input; repeat desugaring shapes; inclusive set ranges; atom decoding. Passing says the "
     "mechanism is wired as designed, NOT that Thompson/subset/minimisation/lowering produce the right language - that is not decided by this family.",
     "Trusted: Venn evaluator (evalx.py) and its reading of `len(x) >= 256` as 'x is the universe'. Not decided: NFA->DFA->minimise->lower pipeline.")
+CLAIMS["C13"] = (
+    "grammar/dispatch/table agreement rules + statement-order (push/pop pairing) rules over the macro machinery; expansion equivalence not decided",
+    "Static, necessary conditions only: declaration-kind and call-site kind tables agree with the grammar and with what the consumers of each argument "
+    "kind accept; kind and arity checks are unconditional and precede binding; frame push / instance activation bracket exactly the body expansion; "
+    "lookup scans the whole frame stack innermost-first before globals; early binding is applied to exactly the identifier kinds; substituted expression "
+    "arguments keep the destination type; expansion depth is bounded by a diagnosed error. Passing says the argument machinery is wired as designed, not "
+    "that a macro call behaves like its hand-inlined body - that needs the compiled machines. Found and repaired F-10, F-11.",
+    "Trusted: shape recognisers for the ~10 statements involved (an unrecognised rewrite is reported). Not decided: behavioural equivalence with inlining.")
